@@ -336,7 +336,8 @@ class CFG:
     def reach(self, starts: Iterable[Node], *, avoid: Iterable[Node] = (),
               labels: frozenset[str] = ALL,
               first_labels: frozenset[str] | None = NORMAL,
-              include_starts: bool = False) -> set[Node]:
+              include_starts: bool = False,
+              skip_edges: Iterable[tuple[Node, str]] = ()) -> set[Node]:
         """Nodes reachable from the out-edges of ``starts``.  The first step
         leaves through ``first_labels`` (default: the normal edges, because a
         statement's effect lives on its normal out-edge)."""
@@ -345,9 +346,10 @@ class CFG:
         stack: list[Node] = []
         fl = labels if first_labels is None else first_labels
         starts = list(starts)
+        skip = set(skip_edges)
         for s in starts:
             for m, lab in s.succ:
-                if lab in fl:
+                if lab in fl and (s, lab) not in skip:
                     stack.append(m)
         while stack:
             n = stack.pop()
@@ -355,7 +357,7 @@ class CFG:
                 continue
             seen.add(n)
             for m, lab in n.succ:
-                if lab in labels:
+                if lab in labels and (n, lab) not in skip:
                     stack.append(m)
         if include_starts:
             seen |= set(starts)
@@ -420,11 +422,14 @@ class CFG:
 
     def always_followed_by(self, n: Node, targets: Iterable[Node],
                            exits: Iterable[Node] | None = None,
-                           labels: frozenset[str] = NORMAL) -> bool:
+                           labels: frozenset[str] = NORMAL,
+                           skip_edges: Iterable[tuple[Node, str]] = ()) \
+            -> bool:
         """Every path from n's normal out-edges to an exit passes a target."""
         targets = set(targets)
         ex = set(exits) if exits is not None else {self.exit}
-        r = self.reach([n], avoid=targets, labels=labels)
+        r = self.reach([n], avoid=targets, labels=labels,
+                       skip_edges=skip_edges)
         return not (r & ex)
 
     def between(self, a: Iterable[Node], b: Iterable[Node],
